@@ -1059,6 +1059,11 @@ class DynFn:
             o = self.expr(a[0], out)
             nm = self.expr(a[1], out)
             return self.bindm(out, 'Dyn.getattrDyn ext %s %s' % (o, nm))
+        if n == 'type' and len(a) == 3:
+            # type(name, bases, namespace): class creation — the oracle's (C3 linearisation, metaclasses, the checks that
+            # raise TypeError are not built-in data); the three arguments are translated
+            xs = [self.expr(x, out) for x in a]
+            return self.bindm(out, 'ext.op %s [%s]' % (lstr('type3'), ', '.join(xs)))
         self.fail(node, 'unsupported use of the built-in %s' % n)
 
     def method_call(self, node, out):
